@@ -1,0 +1,15 @@
+//go:build verif
+
+package ply
+
+// Contracts for the deductive checks in /verif (comment-only; compiled only with -tags verif).
+
+// ---- C01 breadth: frame-only contracts (the writers do not modify the meshes they are given) ----
+//@ func MeshWriter.Write frameonly
+//@   props C01
+//@ func writeBinaryTriTopo frameonly
+//@   props C01
+//@ func writeAsciiTriTopo frameonly
+//@   props C01
+//@ func Write frameonly
+//@   props C01
